@@ -1433,7 +1433,8 @@ public:
     }
     void tstb(SttMod a, Imm16 b) {
         u16 value = RegToBus16(a.GetName());
-        regs.fz = (value >> b.Unsigned16()) & 1;
+        // the bit index is a full 16-bit immediate: bits 16 and up of a 16-bit word are 0
+        regs.fz = b.Unsigned16() < 16 ? (value >> b.Unsigned16()) & 1 : 0;
     }
 
     void and_(Ab a, Ab b, Ax c) {
